@@ -167,6 +167,9 @@ type Summarizer struct {
 	Dropped   []droppedGuard
 	PropCalls map[string]propCall
 	phiActive map[*ssa.Phi]bool
+	// ValueParams binds, while a helper is summarised for one call, its parameters that are not string terms
+	// (patterns, tables, structs) to the caller's values
+	ValueParams map[ssa.Value]ssa.Value
 	loopCache map[*ssa.Function][]*scanLoop
 	loopOK    map[*ssa.Function]bool
 	Inexact   []string
@@ -220,6 +223,8 @@ func (s *Summarizer) termOf(v ssa.Value, env termEnv) (Term, bool) {
 						if i < len(call.Common().Args) {
 							if t, ok := s.termOf(call.Common().Args[i], env); ok {
 								env2[p] = t
+							} else {
+								s.bindValue(p, call.Common().Args[i])
 							}
 						}
 					}
@@ -298,6 +303,8 @@ func (s *Summarizer) termOf(v ssa.Value, env termEnv) (Term, bool) {
 						if i < len(c.Args) {
 							if t, ok := s.termOf(c.Args[i], env); ok {
 								env2[p] = t
+							} else {
+								s.bindValue(p, c.Args[i])
 							}
 						}
 					}
@@ -415,41 +422,200 @@ func constInt(v ssa.Value) (int64, bool) {
 	return constant.Int64Val(c.Value)
 }
 
-// regexOf resolves the receiver of a regexp method call to a known constant.
+// regexOf resolves the receiver of a regexp method call to a known constant pattern: a package-level variable
+// that is assigned once (by its initialiser, an init function or a lazily run closure) the result of
+// regexp.MustCompile/Compile of a constant, possibly held in a field of a package-level struct, handed to the
+// current function as an argument or returned by an accessor function.
 func (s *Summarizer) regexOf(v ssa.Value) *RegexConst {
-	if rc, ok := s.RegexParams[v]; ok {
-		return rc
-	}
-	u, ok := v.(*ssa.UnOp)
-	if !ok || u.Op != token.MUL {
-		return nil
-	}
-	g, ok := u.X.(*ssa.Global)
-	if !ok {
-		return nil
-	}
-	if rc, ok := s.regexCache[g]; ok {
-		return rc
-	}
-	if s.regexCache == nil {
-		s.regexCache = map[*ssa.Global]*RegexConst{}
-	}
-	s.regexCache[g] = nil
-	// the global must never be reassigned: only its package initialiser stores to it
-	for _, f := range s.prog.SrcFuncs() {
-		if f.Synthetic != "" && f.Name() == "init" {
-			continue // the package initialiser performs the one permitted store
+	return s.resolveRegex(v, 0)
+}
+
+// resolveValue follows the bindings of helper parameters to the values of their callers.
+func (s *Summarizer) resolveValue(v ssa.Value) ssa.Value {
+	for i := 0; i < 6; i++ {
+		w, ok := s.ValueParams[v]
+		if !ok {
+			return v
 		}
+		v = w
+	}
+	return v
+}
+
+func (s *Summarizer) ssaConstString(v ssa.Value, depth int) (string, bool) {
+	v = s.resolveValue(v)
+	if k, ok := constString(v); ok {
+		return k, true
+	}
+	if bo, ok := v.(*ssa.BinOp); ok && bo.Op == token.ADD && depth < 8 {
+		x, ok1 := s.ssaConstString(bo.X, depth+1)
+		y, ok2 := s.ssaConstString(bo.Y, depth+1)
+		if ok1 && ok2 {
+			return x + y, true
+		}
+	}
+	return "", false
+}
+
+// singleStoreTo: the one store to addr-like locations selected by match, anywhere in the program's sources.
+func (s *Summarizer) singleStoreWhere(match func(addr ssa.Value) bool) *ssa.Store {
+	var only *ssa.Store
+	n := 0
+	for _, f := range s.prog.SrcFuncs() {
 		for _, b := range f.Blocks {
 			for _, in := range b.Instrs {
-				if st, ok := in.(*ssa.Store); ok && st.Addr == g {
-					return nil
+				if st, ok := in.(*ssa.Store); ok && match(st.Addr) {
+					n++
+					only = st
 				}
 			}
 		}
 	}
-	s.regexCache[g] = s.regexes[g.Pkg.Pkg.Name()+"."+g.Name()]
-	return s.regexCache[g]
+	if n != 1 {
+		return nil
+	}
+	return only
+}
+
+func (s *Summarizer) resolveRegex(v ssa.Value, depth int) *RegexConst {
+	if depth > 6 || v == nil {
+		return nil
+	}
+	if rc, ok := s.RegexParams[v]; ok {
+		return rc
+	}
+	v = s.resolveValue(v)
+	if rc, ok := s.RegexParams[v]; ok {
+		return rc
+	}
+	switch x := v.(type) {
+	case *ssa.Extract:
+		if x.Index == 0 {
+			return s.resolveRegex(x.Tuple, depth+1)
+		}
+	case *ssa.Call:
+		g := staticCallee(x.Common())
+		if g == nil {
+			return nil
+		}
+		switch fnName(g) {
+		case "regexp.MustCompile", "regexp.Compile":
+			if src, ok := s.ssaConstString(x.Common().Args[0], 0); ok {
+				return &RegexConst{Name: "regexp@" + s.prog.Pos(x.Pos()), Src: src, Pos: x.Pos()}
+			}
+			return nil
+		}
+		// an accessor of the repository: every return is the same pattern
+		if g.Blocks != nil && g.Pkg != nil && strings.HasPrefix(g.Pkg.Pkg.Path(), modulePath) && len(g.Params) == 0 && g.Signature.Results().Len() == 1 {
+			var res *RegexConst
+			for _, ret := range Returns(g) {
+				rc := s.resolveRegex(ret.Results[0], depth+1)
+				if rc == nil || (res != nil && res.Src != rc.Src) {
+					return nil
+				}
+				res = rc
+			}
+			return res
+		}
+	case *ssa.Field:
+		// a field of a struct value loaded from a package-level variable
+		base := s.resolveValue(x.X)
+		if u, ok := base.(*ssa.UnOp); ok && u.Op == token.MUL {
+			if g, ok := u.X.(*ssa.Global); ok {
+				return s.regexInGlobalField(g, x.Field, depth)
+			}
+		}
+	case *ssa.UnOp:
+		if x.Op != token.MUL {
+			return nil
+		}
+		switch a := x.X.(type) {
+		case *ssa.Global:
+			if rc, ok := s.regexCache[a]; ok {
+				return rc
+			}
+			if s.regexCache == nil {
+				s.regexCache = map[*ssa.Global]*RegexConst{}
+			}
+			s.regexCache[a] = nil
+			st := s.singleStoreWhere(func(addr ssa.Value) bool { return addr == ssa.Value(a) })
+			if st == nil {
+				return nil
+			}
+			rc := s.regexes[a.Pkg.Pkg.Name()+"."+a.Name()]
+			if rc == nil {
+				if rc2 := s.resolveRegex(st.Val, depth+1); rc2 != nil {
+					rc = &RegexConst{Pkg: a.Pkg.Pkg.Path(), Name: a.Name(), Src: rc2.Src, Pos: rc2.Pos}
+				}
+			}
+			s.regexCache[a] = rc
+			return rc
+		case *ssa.FieldAddr:
+			base := s.resolveValue(a.X)
+			if g, ok := base.(*ssa.Global); ok {
+				return s.regexInGlobalField(g, a.Field, depth)
+			}
+			// the local copy of a struct parameter (value receiver) that stands for a package-level struct
+			if al, ok := base.(*ssa.Alloc); ok {
+				if st := singleStoreLoose(al); st != nil {
+					if u, ok := s.resolveValue(st.Val).(*ssa.UnOp); ok && u.Op == token.MUL {
+						if g, ok := u.X.(*ssa.Global); ok {
+							return s.regexInGlobalField(g, a.Field, depth)
+						}
+					}
+				}
+			}
+		}
+	}
+	return nil
+}
+
+// regexInGlobalField: the pattern held in field #i of a package-level struct variable (or of the struct a
+// package-level pointer variable is initialised with), written once.
+func (s *Summarizer) regexInGlobalField(g *ssa.Global, field int, depth int) *RegexConst {
+	st := s.singleStoreWhere(func(addr ssa.Value) bool {
+		fa, ok := addr.(*ssa.FieldAddr)
+		return ok && fa.X == ssa.Value(g) && fa.Field == field
+	})
+	if st == nil {
+		// the whole struct stored at once
+		whole := s.singleStoreWhere(func(addr ssa.Value) bool { return addr == ssa.Value(g) })
+		if whole == nil {
+			return nil
+		}
+		structVal := whole.Val
+		// a constructor of the repository: the struct literal it returns, with its parameters bound
+		if call, ok := structVal.(*ssa.Call); ok {
+			if h := staticCallee(call.Common()); h != nil && h.Blocks != nil && h.Pkg != nil && strings.HasPrefix(h.Pkg.Pkg.Path(), modulePath) && len(Returns(h)) == 1 {
+				for i, prm := range h.Params {
+					if i < len(call.Common().Args) {
+						s.bindValue(prm, call.Common().Args[i])
+					}
+				}
+				structVal = Returns(h)[0].Results[0]
+			}
+		}
+		if u, ok := structVal.(*ssa.UnOp); ok {
+			if al, ok := u.X.(*ssa.Alloc); ok {
+				for _, ref := range *al.Referrers() {
+					if fa, ok := ref.(*ssa.FieldAddr); ok && fa.Field == field {
+						for _, r2 := range *fa.Referrers() {
+							if s2, ok := r2.(*ssa.Store); ok && s2.Addr == ssa.Value(fa) {
+								if rc := s.resolveRegex(s2.Val, depth+1); rc != nil {
+									return &RegexConst{Pkg: g.Pkg.Pkg.Path(), Name: g.Name(), Src: rc.Src, Pos: rc.Pos}
+								}
+							}
+						}
+					}
+				}
+			}
+		}
+		return nil
+	}
+	if rc := s.resolveRegex(st.Val, depth+1); rc != nil {
+		return &RegexConst{Pkg: g.Pkg.Pkg.Path(), Name: g.Name(), Src: rc.Src, Pos: rc.Pos}
+	}
+	return nil
 }
 
 func staticCallee(c *ssa.CallCommon) *ssa.Function {
@@ -603,6 +769,8 @@ func (s *Summarizer) callForm(call *ssa.Call, env termEnv) *Form {
 			if i < len(c.Args) {
 				if t, ok := s.termOf(c.Args[i], env); ok {
 					env2[p] = t
+				} else {
+					s.bindValue(p, c.Args[i])
 				}
 			}
 		}
@@ -806,6 +974,8 @@ func (s *Summarizer) binopForm(x *ssa.BinOp, env termEnv) *Form {
 						if i < len(call.Common().Args) {
 							if t, ok := s.termOf(call.Common().Args[i], env); ok {
 								env2[p] = t
+							} else {
+								s.bindValue(p, call.Common().Args[i])
 							}
 						}
 					}
@@ -1939,10 +2109,21 @@ func (s *Summarizer) repoCallee(call *ssa.Call, env termEnv) (*ssa.Function, ter
 		if i < len(call.Common().Args) {
 			if t, ok := s.termOf(call.Common().Args[i], env); ok {
 				env2[p] = t
+			} else {
+				s.bindValue(p, call.Common().Args[i])
 			}
 		}
 	}
 	return f, env2, true
+}
+
+// bindValue records (for the rest of the analysis: parameters belong to one function, and a helper called with
+// different patterns from different places is bound again at each summary) what a helper parameter stands for.
+func (s *Summarizer) bindValue(prm *ssa.Parameter, arg ssa.Value) {
+	if s.ValueParams == nil {
+		s.ValueParams = map[ssa.Value]ssa.Value{}
+	}
+	s.ValueParams[prm] = s.resolveValue(arg)
 }
 
 // strEqConst: the condition "v == k" for a string value v (a constant, a submatch element, a term).
